@@ -1087,7 +1087,7 @@ class World:
                 m = float(np.max(np.abs(v)))
                 if np.isfinite(m) and m > scale:
                     scale = m
-        rec["scale"] = scale
+        rec["scale"] = scale * max(1.0, tp.vmax)
         for k, i in self.info.items():
             if i.const:
                 exp[k] = ("none",)
